@@ -148,10 +148,13 @@ type Case struct {
 	Beside string `json:",omitempty"`
 	// Variadic: a further rule "vt = A C*" whose action takes the list through a variadic
 	// parameter (cs ...Token has type []Token: a legal binding that must also compile)
-	Variadic bool   `json:",omitempty"`
-	Detail   string `json:",omitempty"`
-	Lox      string `json:",omitempty"`
-	Go       string `json:",omitempty"`
+	Variadic bool `json:",omitempty"`
+	// Decor: further package-level declarations that mention the parser type (none of them is a
+	// second parser): var-of-parser-type, var-pointer, func-and-alias
+	Decor  string `json:",omitempty"`
+	Detail string `json:",omitempty"`
+	Lox    string `json:",omitempty"`
+	Go     string `json:",omitempty"`
 }
 
 func (c *Case) typ() typ {
@@ -613,6 +616,14 @@ func Run(toks []int, n int) (r Result) {
 		fmt.Fprintf(&g, "\nfunc (p *prs) on_e(a Token, v %s, b Token) int {\n\tif !(p.n == 0 && any(v) == nil) {\n\t\tp.check(\"parameter for second use %s\", v, %s)\n\t}\n\treturn 3\n}\n", extraTT, extraTerm, want)
 		g.WriteString("\nfunc (p *prs) on_s__e(a Token, v int) int { return v }\n")
 	}
+	switch c.Decor {
+	case "var-of-parser-type":
+		g.WriteString("\nvar spareParser prs\n\nvar _ = &spareParser\n")
+	case "var-pointer":
+		g.WriteString("\nvar currentParser *prs\n\nvar parserPool []prs\n")
+	case "func-and-alias":
+		g.WriteString("\ntype prsAlias = prs\n\nfunc newPrs() prs { return prs{} }\n\nconst prsName = \"prs\"\n")
+	}
 	if c.Variadic {
 		g.WriteString("\nfunc (p *prs) on_vt(a Token, cs ...Token) int {\n\tp.check(\"number of elements in the variadic parameter for C*\", len(cs), p.n)\n\treturn len(cs)\n}\n")
 		g.WriteString("\nfunc (p *prs) on_s__vt(a Token, b Token, v int) int { return v }\n")
@@ -714,6 +725,9 @@ func eval(run *ev.Run, cases []*Case, count bool) ([]verdict, error) {
 			}
 			if c.Variadic {
 				run.Class("variadic-action")
+			}
+			if c.Decor != "" {
+				run.Class("decor:" + c.Decor)
 			}
 			if r.positive {
 				run.Class("expected:accept")
@@ -860,6 +874,7 @@ func genCase(rt *rapid.T) *Case {
 		c.ExtraBefore = c.Extra != "" && rapid.Bool().Draw(rt, "extraBefore")
 		c.Beside = besideKinds[rapid.IntRange(0, len(besideKinds)-1).Draw(rt, "beside")]
 		c.Variadic = rapid.IntRange(0, 5).Draw(rt, "variadic") == 0
+		c.Decor = []string{"", "", "", "", "", "var-of-parser-type", "var-pointer", "func-and-alias"}[rapid.IntRange(0, 7).Draw(rt, "decor")]
 		if c.Skel == "tokstar" {
 			c.T = "tok"
 			c.Extra, c.ExtraBefore = "", false
